@@ -92,7 +92,23 @@ def main():
     except Exception:  # noqa: BLE001
         pass
     meta["property"] = prop
+    # keep what tools/seed_suite.py recorded earlier (suite_* keys) for this seeded change
+    keep = {}
+    for mp in (os.path.join(dst, "meta.json"), os.path.join(src, "meta.json")):
+        try:
+            old_c = json.load(open(mp)).get("confirmed", {})
+            keep.update({k: v for k, v in old_c.items() if k.startswith("suite_") and k not in keep})
+        except Exception:  # noqa: BLE001
+            pass
+    for k in ("rebased",):
+        try:
+            om = json.load(open(os.path.join(dst, "meta.json")))
+            if k in om and k not in meta:
+                meta[k] = om[k]
+        except Exception:  # noqa: BLE001
+            pass
     meta["confirmed"] = {
+        **keep,
         "how": "scratch git worktree of /repo HEAD under /tmp (removed afterwards): demo on clean tree, git apply, "
                "demo again" + (", pinned suite vs BASELINE.json" if suite else "") +
                f", then VERIF_REPO=<worktree> ./check {prop} {tier}",
